@@ -337,6 +337,37 @@ pub fn run(ctx: &Ctx) {
                 let mut kp = [0u8; 64];
                 kp[..32].copy_from_slice(s);
                 kp[32..].copy_from_slice(p);
+                // the same import through the PKCS#8 key-pair structure (its own validation code)
+                {
+                    use ed25519_dalek::pkcs8::{KeypairBytes, PublicKeyBytes};
+                    let r = guarded(|| {
+                        let kb = KeypairBytes { secret_key: *s, public_key: Some(PublicKeyBytes(*p)) };
+                        let by_ref = SigningKey::try_from(&kb).map(|k| k.to_keypair_bytes()).ok();
+                        let by_val = SigningKey::try_from(kb).map(|k| k.to_keypair_bytes()).ok();
+                        let no_pub = SigningKey::try_from(&KeypairBytes { secret_key: *s, public_key: None }).map(|k| k.to_keypair_bytes()).ok();
+                        (by_ref, by_val, no_pub)
+                    });
+                    let mut own = [0u8; 64];
+                    own[..32].copy_from_slice(s);
+                    own[32..].copy_from_slice(&pubs[i]);
+                    let want = if i == j { Some(own) } else { None };
+                    match r {
+                        Ok((a, b, c)) => {
+                            if a != want || b != want || c != Some(own) {
+                                ctx.violation("sig.pkcs8.KeypairBytes", &format!("import of secret {} with public {}: accepted={}/{} (without public half: {})", i, j, a.is_some(), b.is_some(), c.is_some()), json!({"kind": "keypair_pkcs8", "bytes": hex(&kp)}));
+                            }
+                        }
+                        Err(e) => ctx.violation("sig.pkcs8.KeypairBytes", &format!("panic: {}", e), json!({"kind": "keypair_pkcs8", "bytes": hex(&kp)})),
+                    }
+                    if i == j {
+                        let sk = SigningKey::from_bytes(s);
+                        let kb = KeypairBytes::from(&sk);
+                        let pb = PublicKeyBytes::from(&sk.verifying_key());
+                        if kb.secret_key != *s || kb.public_key.map(|x| x.0) != Some(pubs[i]) || pb.0 != pubs[i] || VerifyingKey::try_from(&pb).map(|k| k.to_bytes()).ok() != Some(pubs[i]) {
+                            ctx.violation("sig.pkcs8.KeypairBytes", "export to KeypairBytes / PublicKeyBytes differs from (seed, public key)", json!({"kind": "keypair_pkcs8", "bytes": hex(&kp)}));
+                        }
+                    }
+                }
                 let r = guarded(|| SigningKey::from_keypair_bytes(&kp).is_ok());
                 match r {
                     Ok(ok) => {
@@ -373,7 +404,7 @@ pub fn run(ctx: &Ctx) {
             v
         },
     };
-    let depth = 2;
+    let depth = if ctx.deep { 3 } else { 2 };
     ctx.bound("machine_depth", json!(depth));
     ctx.bound("machine_keys_msgs_ctxs", json!([w.seeds.len(), w.msgs.len(), w.ctxs.len()]));
     let m = Machine { w, max_depth: depth, ctx: ctx as *const Ctx as usize };
